@@ -55,7 +55,7 @@ func (s *limiterSlice) exec(t []string) string {
 	return "bad-op"
 }
 
-func genLimiter(r *rand.Rand, n int, tier string, emit func(string)) {
+func genLimiter(r *rand.Rand, n int, tier string, emit func(string) string) {
 	ops := 60
 	if tier == "thorough" {
 		ops = 300
@@ -120,10 +120,9 @@ func genLimiter(r *rand.Rand, n int, tier string, emit func(string)) {
 			}
 			if r.Intn(6) == 0 {
 				emit(fmt.Sprintf("limiter try %d", k))
-			} else {
-				emit(fmt.Sprintf("limiter acq %d %d", k, mw))
+			} else if w := atoi(emit(fmt.Sprintf("limiter acq %d %d", k, mw))); w > 0 {
+				lastWait = w
 			}
-			_ = lastWait
 		}
 	}
 }
